@@ -820,7 +820,16 @@ func famCode(f string) int {
 	return 0
 }
 
-func coqCase(c *Case, o *Obs, proof []byte) string {
+func coqCase(c *Case, o *Obs, proof []byte) string { return coqCaseCred(c, o, proof, "") }
+
+// coqCaseCred: cred is the Gallina term of the credential-level observation ("" = none); a case with one was verified
+// through the proof suite (exact statement count).
+func coqCaseCred(c *Case, o *Obs, proof []byte, cred string) string {
+	credTerm, strict := "None", c.Level == "cred"
+	if cred != "" {
+		credTerm = "(Some " + cred + ")"
+	}
+
 	legacy := signerKind(c) == "LEGACY"
 	withLegacy := func(l []int) []int {
 		if legacy {
@@ -891,9 +900,9 @@ func coqCase(c *Case, o *Obs, proof []byte) string {
 		}
 	}
 
-	return fmt.Sprintf("{| c_msgs := %s; c_R := %s; c_nonce := %d; c_key := %d; c_payload := %s; c_len := %d; c_proof := %s; c_intact := %s; c_ks := %s; c_signer := %s; c_sigpfx := %s; c_pfx := %s; c_gd := %d; c_tr := %s; c_att := %s |}",
+	return fmt.Sprintf("{| c_msgs := %s; c_R := %s; c_nonce := %d; c_key := %d; c_payload := %s; c_len := %d; c_proof := %s; c_intact := %s; c_ks := %s; c_signer := %s; c_sigpfx := %s; c_pfx := %s; c_gd := %d; c_tr := %s; c_strict := %s; c_cred := %s; c_att := %s |}",
 		coqPlainNList(withLegacy(c.Msgs)), coqNatList(c.R), c.Nonce, c.Key, coqPlainNList(o.Payload), o.ProofLen, pb, hx.CoqBool(o.Intact),
-		ksTerm, hx.CoqNat(c.Signer), coqPlainNList(o.KeyPrefix), coqPlainNList(o.ProofPfx), o.GensDistinct, hx.CoqList(trs), hx.CoqList(att))
+		ksTerm, hx.CoqNat(c.Signer), coqPlainNList(o.KeyPrefix), coqPlainNList(o.ProofPfx), o.GensDistinct, hx.CoqList(trs), hx.CoqBool(strict), credTerm, hx.CoqList(att))
 }
 
 // ---------- generators ----------
